@@ -108,6 +108,14 @@ def check_instance(S, dim, reset, rep):
         ok = got is not None and to_pw(got) == want
         rep.ob("C10.d", "%s %s" % (lab, attr), ok, "coefficient stored is %r, documented k * max_spacing^(dim-1) = %r" % (got, want),
                key="C10.d|%d|%s|%r" % (dim, attr, got), sample={"instance": lab, "stored": repr(got)})
+    # ---- the interaction works on the caller's flow fields themselves (views), not on snapshots taken at construction
+    for attr in ("eul_grid_velocity_field", "eul_grid_forcing_field"):
+        v = inst.attrs.get(attr)
+        ok = isinstance(v, Arr) and v.alloc.id == arrs[attr].alloc.id
+        rep.ob("C10.f", "%s %s is a view of the caller's array" % (lab, attr), ok,
+               "the interaction keeps %s, which is not the array it was given: later changes of the flow field are not seen / the spread force does not reach the shared field" % (
+                   v.describe() if isinstance(v, Arr) else v) if not ok else "same memory as the constructor argument",
+               key="C10.f|%d|%s|alias" % (dim, attr), nontrivial=False)
     # ---- evaluation entry points never touch the integral, the flow velocity or the body
     evals = {"__call__": {}, "compute_interaction_on_lag_grid": {}, "compute_flow_forces_and_torques": {}}
     traces = {}
